@@ -110,6 +110,11 @@ impl AffineRepr for AffinePoint {
         }
     }
 
+    fn is_zero(&self) -> bool {
+        // The inner point of the identity may be either (0, 1) or (0, -1).
+        self.inner.x == Fq::ZERO
+    }
+
     fn generator() -> Self {
         Element::GENERATOR.into()
     }
